@@ -360,6 +360,11 @@ class Interp:
         base = self.ev(n.value, env)
         s = src(n)
         if isinstance(base, VCls):
+            if n.attr in ("model_fields", "__annotations__", "__fields__") and base.cls in self.pm.classes and self.pm.is_pydantic(base.cls) \
+                    and self.class_attr(base.cls, n.attr) is None:
+                # the declared fields of a pydantic model, in declaration order (a finite table defined by the source)
+                return VDict({k: VOpq("FieldInfo", base.cls + "." + k) for k in self.pm.all_fields(base.cls)
+                              if not k.startswith("model_") and "ClassVar" not in src(self.pm.all_fields(base.cls)[k].annotation)})
             r = self.class_attr(base.cls, n.attr)
             if r is not None:
                 return r
